@@ -127,15 +127,21 @@ CoordPosCase(i) ==
     [op |-> "coordpos", id |-> <<i>>, g |-> Cat[i], lo |-> -1, hi |-> 4 * N + 1,
      pos |-> [k \in 1 .. W * W |-> CatPos[i][<<((k - 1) \div W) - 1, ((k - 1) % W) - 1>>]]]
 
-\* ib > 0: pair (ia, ib) emitted; ib = -1: position map of Cat[ia] emitted
+EmitRelate == Emit \in {"relate", "both", "relatepool"}
+EmitCoord  == Emit \in {"coordpos", "both"}
+EmitPool   == Emit \in {"pool", "relatepool"}
+\* ib > 0: pair (ia, ib) emitted; ib = -1: position map of Cat[ia] emitted; ib = -2: Cat[ia] listed
 Next == /\ ib = 0
         /\ ia' = ia
-        /\ \/ /\ Emit \in {"relate", "both"} /\ ia \in ASide
+        /\ \/ /\ EmitRelate /\ ia \in ASide
               /\ ib' \in 1 .. NCat
               /\ PrintT(<<"CASE", ToJson(RelateCase(ia, ib'))>>)
-           \/ /\ Emit \in {"coordpos", "both"}
+           \/ /\ EmitCoord
               /\ ib' = -1
               /\ PrintT(<<"CASE", ToJson(CoordPosCase(ia))>>)
+           \/ /\ EmitPool
+              /\ ib' = -2
+              /\ PrintT(<<"POOL", ToJson([i |-> ia, g |-> Cat[ia]])>>)
 
 Spec == Init /\ [][Next]_vars
 
